@@ -52,6 +52,12 @@ func (a *api) build(canon string) (any, error) {
 		return a.identity(), nil
 	}
 	f := strings.Split(canon, ",")
+	if a.kind == '2' {
+		if len(f) != 4 {
+			return nil, fmt.Errorf("bad G2 point")
+		}
+		return a.fromAffine(join384(vh.UnZHex(f[0]), vh.UnZHex(f[1])), join384(vh.UnZHex(f[2]), vh.UnZHex(f[3])))
+	}
 	if a.kind == 'm' && (f[1] == "ERR" || f[0] == "0") {
 		// the order-2 point (u,v) = (0,0): double of the order-4 point u = 1
 		one := make([]byte, a.csize)
@@ -115,6 +121,21 @@ func implEval(line string) string {
 			return "REJ"
 		}
 		return "OK " + vh.ZHex(v)
+	case "G":
+		var x *bls12381.GtElement
+		var err error
+		if pk := vh.Safely(func() { x, err = bls12381.NewGt().FromBytes(vh.UnHex(f[1])) }); pk != "" {
+			return "PANIC"
+		}
+		if err != nil {
+			return "REJ"
+		}
+		b := x.Bytes()
+		var cs []string
+		for i := 0; i+48 <= len(b); i += 48 {
+			cs = append(cs, vh.ZHex(beInt(b[i:i+48])))
+		}
+		return "OK " + strings.Join(cs, ",")
 	case "FE":
 		fl := fieldByName(f[1])
 		b, err := fl.encode(vh.UnZHex(f[2]))
@@ -966,7 +987,7 @@ func main() {
 
 	phase("fields")
 	// (5) GT
-	checkGt(res, a.Seed, nRandom/8)
+	checkGt(res, cs, a.Seed, nRandom/8)
 
 	// (6) FromAffineX of the subgroup-typed pairing groups
 	checkAffineXSubgroup(res, a.Seed)
@@ -1034,6 +1055,8 @@ func nontrivial(line string) bool {
 func corrKey(line string) string {
 	f := strings.Split(line, " ")
 	switch f[0] {
+	case "G":
+		return "blsgt-frombytes"
 	case "D":
 		return f[1] + "-" + fmtName(f[2]) + "-decode"
 	case "E":
@@ -1102,6 +1125,14 @@ func propOfLine(line, impl, model string) *propFail {
 		return propRoundTrip(a, f[2], p)
 	case "A", "AX":
 		a := apiByName(f[1])
+		if a.kind == '2' {
+			if strings.HasPrefix(impl, "OK ") {
+				if p, err := a.build(strings.TrimPrefix(impl, "OK ")); err == nil {
+					return propAccepted(a, "u", nil, p)
+				}
+			}
+			return nil
+		}
 		if !strings.HasPrefix(impl, "OK") {
 			if f[0] == "A" && a.kind != 'm' {
 				x, y := vh.UnZHex(f[2]), vh.UnZHex(f[3])
@@ -1298,7 +1329,7 @@ func checkWrappersReject(res *vh.Result, a *api, b []byte) {
 
 // checkGt: target-group elements. Encoding round trip; an accepted string must denote an
 // element of the order-r group (x^r = 1 computed with the public Mul/Square).
-func checkGt(res *vh.Result, seed int64, n int) {
+func checkGt(res *vh.Result, cs *caseSet, seed int64, n int) {
 	gt := bls12381.NewGt()
 	g1, g2 := bls12381.NewG1().Generator(), bls12381.NewG2().Generator()
 	e, err := g1.Pair(g2)
@@ -1311,6 +1342,7 @@ func checkGt(res *vh.Result, seed int64, n int) {
 		b := x.Bytes()
 		line := "G " + vh.Hex(b)
 		res.Count("gt-roundtrip", line, true)
+		cs.add("gt-frombytes", line)
 		y, err := gt.FromBytes(b)
 		if err != nil || !y.Equal(x) {
 			report(vh.Mismatch{ID: fmt.Sprintf("gt%d", i), Kind: "prop", Key: "blsgt-roundtrip", PropFail: true, Detail: "GT element does not survive Bytes/FromBytes", Case: line, What: "C13_decode_encode_point (GT)"})
@@ -1318,6 +1350,9 @@ func checkGt(res *vh.Result, seed int64, n int) {
 		for _, l := range []int{0, 1, len(b) - 1, len(b) + 1, 2 * len(b)} {
 			c := make([]byte, l)
 			copy(c, b)
+			if i == 1 {
+				cs.add("gt-frombytes", "G "+vh.Hex(c))
+			}
 			var err error
 			pk := vh.Safely(func() { _, err = gt.FromBytes(c) })
 			if pk != "" || err == nil {
@@ -1348,6 +1383,9 @@ func checkGt(res *vh.Result, seed int64, n int) {
 	for i, b := range cands {
 		line := "G " + vh.Hex(b)
 		res.Count("gt-frombytes", line, true)
+		if i < 8 || searchMode {
+			cs.add("gt-frombytes", line) // Fp12 exponentiation in the extracted model: a few cases in the quick tier
+		}
 		var x *bls12381.GtElement
 		var err error
 		if pk := vh.Safely(func() { x, err = gt.FromBytes(b) }); pk != "" {
@@ -1417,8 +1455,6 @@ func replay(a vh.Args, res *vh.Result) {
 			if pf != nil {
 				report(vh.Mismatch{ID: "replay", Kind: "prop", Key: pf.key, Detail: pf.detail, Case: c, PropFail: true})
 			}
-		case "G":
-			res.Note("GT case: re-run the check with the same seed")
 		default:
 			out, err := vh.Driver(a.Driver, []string{c})
 			if err != nil {
